@@ -265,7 +265,7 @@ LEMMAS = [
     dict(name='L3_grouping', fn='_l3_grouping', engine='E1', timeout=_T, replay='replay.C06:replay',
          cases={'quick': [dict(id='n%d_d%d_p%d' % (n, d, p), pre=['n == %d' % n, 'd == %d' % d, 'pooling == %d' % p] + (['s2 == 0', 'c2 == 0', 'u2 == 0', 'r2 == False'] if n < 3 else []) + (['s1 == 0', 'c1 == 0', 'u1 == 0', 'r1 == False'] if n < 2 else []))
                           for n in (1, 2) for d in (0, 1) for p in (0, 1)] +
-                         [dict(id='n3_d%d_p%d_s%d' % (d, p, s), pre=['n == 3', 'd == %d' % d, 'pooling == %d' % p, 's0 == %d' % s, 'r0 == False', 'r1 == False', 'r2 == False', 'c0 == 0', 'c1 == 0', 'c2 <= 1']) for d in (0, 1) for p in (0, 1) for s in (0, 1)],
+                         [dict(id='n3_d%d_p%d_s%d_u%d' % (d, p, s, u), pre=['n == 3', 'd == %d' % d, 'pooling == %d' % p, 's0 == %d' % s, 'u0 == %d' % u, 'r0 == False', 'r1 == False', 'r2 == False', 'c0 == 0', 'c1 == 0', 'c2 <= 1']) for d in (0, 1) for p in (0, 1) for s in (0, 1) for u in (0, 1, 2)],
                 'thorough': [dict(id='n3_d%d_p%d_s%d_c%d_r%d' % (d, p, s, c, r), pre=['n == 3', 'd == %d' % d, 'pooling == %d' % p, 's0 == %d' % s, 'c0 == %d' % c, 'r0 == %s' % bool(r)]) for d in (0, 1) for p in (0, 1) for s in (0, 1) for c in (0, 1) for r in (0, 1)]}),
     dict(name='L3b_grouping_across_contigs', fn='_l3b_two_contigs', engine='E1', timeout=_T, replay='replay.C06:replay',
          cases={'quick': [dict(id='plain', pre=['cls == 0']), dict(id='nla', pre=['cls == 1'])]}),
